@@ -661,3 +661,138 @@ def substitute_once(d, ch, repl):
                 new.append((atoms, t))
         n.tr[s] = new
     return determinize(n)
+
+
+# ---------------------------------------------------------------------------------------------------------------
+# ambiguity of a pattern as a backtracking matcher sees it (catastrophic backtracking)
+
+def exponential_ambiguity(alpha, pattern, flags=0):
+    """None, or a short description, when the pattern has *exponential degree of ambiguity*: some sub-word can be matched by a
+    loop of the pattern in two different ways, so a backtracking matcher (CPython's re) needs time exponential in the length
+    of a non-matching input.  Decided on the Thompson automaton with path multiplicities kept:
+      (1) two different epsilon-paths between the end of one character step and the beginning of the next inside a loop
+          (nested quantifiers: (x+)+, (_*d+)+), or
+      (2) a state from which the same word leads back to itself along two different state sequences ((a|aa)+)."""
+    n = build_nfa(alpha, _parse(pattern, flags))
+    N = len(n.eps)
+    # (a) number of distinct epsilon paths p -> q (the epsilon graph of a Thompson construction is acyclic unless a nullable
+    #     expression is starred, which is itself infinitely ambiguous)
+    order, state, cyc = [], {}, []
+
+    def dfs(s):
+        state[s] = 1
+        for t in n.eps[s]:
+            if state.get(t) == 1:
+                cyc.append((s, t))
+            elif t not in state:
+                dfs(t)
+        state[s] = 2
+        order.append(s)
+    import sys
+    sys.setrecursionlimit(max(10000, sys.getrecursionlimit()))
+    for s in range(N):
+        if s not in state:
+            dfs(s)
+    if cyc:
+        return 'a nullable sub-expression is repeated (epsilon cycle): unboundedly many ways to match the empty word'
+    cnt = [dict() for _ in range(N)]          # cnt[p][q] = number of epsilon paths p ->* q (incl. the empty path)
+    for s in order:                           # reverse topological order: successors first
+        c = {s: 1}
+        for t in n.eps[s]:
+            for q, k in cnt[t].items():
+                c[q] = min(c.get(q, 0) + k, 4)
+        cnt[s] = c
+    # (b) epsilon-free weighted transitions between "anchor" states: the start state and the targets of character edges
+    anchors = {n.start} | {t for s in range(N) for (atoms, t) in n.tr[s]}
+    edges = {}                                # (p, q) -> {atom: multiplicity}
+    for p in anchors:
+        for mid, k in cnt[p].items():
+            for (atoms, q) in n.tr[mid]:
+                d = edges.setdefault((p, q), {})
+                for a in atoms:
+                    d[a] = min(d.get(a, 0) + k, 4)
+    succ = {}
+    for (p, q) in edges:
+        succ.setdefault(p, set()).add(q)
+    # useful states: reachable from the start, and able to reach acceptance
+    reach = {n.start}
+    stack = [n.start]
+    while stack:
+        s = stack.pop()
+        for t in succ.get(s, ()):
+            if t not in reach:
+                reach.add(t)
+                stack.append(t)
+    accepting = {p for p in anchors if any(q in n.accept for q in cnt[p])}
+    pred = {}
+    for (p, q) in edges:
+        pred.setdefault(q, set()).add(p)
+    co = set(accepting)
+    stack = list(accepting)
+    while stack:
+        s = stack.pop()
+        for t in pred.get(s, ()):
+            if t not in co:
+                co.add(t)
+                stack.append(t)
+    useful = reach & co
+
+    def reaches(a, b):
+        seen = {a}
+        st = [a]
+        while st:
+            s = st.pop()
+            for t in succ.get(s, ()):
+                if t == b:
+                    return True
+                if t not in seen and t in useful:
+                    seen.add(t)
+                    st.append(t)
+        return False
+    for (p, q), d in edges.items():
+        if p in useful and q in useful and any(k >= 2 for k in d.values()) and (p == q or reaches(q, p)):
+            a = next(a for a, k in d.items() if k >= 2)
+            return 'inside a loop the step on %r can be taken in two different ways (nested / adjacent quantifiers over the ' \
+                   'same characters)' % alpha.rep(a)
+    # (c) product test: (p,p) ->* (x,y), x != y ->* (p,p) reading the same word on both components
+    for p0 in useful:
+        if not (p0 in succ and reaches(p0, p0)):
+            continue
+        start = (p0, p0)
+        seen = {start}
+        st = [start]
+        off = set()
+        while st:
+            x, y = st.pop()
+            for qx in succ.get(x, ()):
+                if qx not in useful:
+                    continue
+                dx = edges[(x, qx)]
+                for qy in succ.get(y, ()):
+                    if qy not in useful:
+                        continue
+                    dy = edges[(y, qy)]
+                    if not (set(dx) & set(dy)):
+                        continue
+                    nxt = (qx, qy)
+                    if nxt not in seen:
+                        seen.add(nxt)
+                        st.append(nxt)
+                        if qx != qy:
+                            off.add(nxt)
+        # does an off-diagonal pair lead back to (p0, p0)?
+        for (x, y) in off:
+            seen2 = {(x, y)}
+            st2 = [(x, y)]
+            while st2:
+                a, b = st2.pop()
+                for qa in succ.get(a, ()):
+                    for qb in succ.get(b, ()):
+                        if qa not in useful or qb not in useful or not (set(edges[(a, qa)]) & set(edges[(b, qb)])):
+                            continue
+                        if (qa, qb) == start:
+                            return 'a loop of the pattern can read the same text along two different alternatives'
+                        if (qa, qb) not in seen2:
+                            seen2.add((qa, qb))
+                            st2.append((qa, qb))
+    return None
